@@ -152,6 +152,10 @@ def run_equiv(case, rec):
             z[np.isnan(expected_radii("vdw", z))] = 6
             atoms.set_atomic_numbers(z)
     explicit = expected_radii(preset, atoms.get_atomic_numbers()).copy()
+    explicit_snapshot = explicit.copy()
+    readonly = bool(rng.random() < 0.5)
+    if readonly:
+        explicit.setflags(write=False)      # "used unchanged": a caller may hand over a read-only array
     thr = float(rng.uniform(0.3, 1.2))
     wit = dict(structures.describe(atoms), preset=preset, threshold=thr, family=fam)
     rec.call(M_EQ)
@@ -194,6 +198,23 @@ def run_equiv(case, rec):
         except Exception as e:
             ok = False
             rec.violation(M_EQ, "C19|equivalence|SBC|exception|%s|%s" % (type(e).__name__, preset), "SBC raised %r" % (e,), wit)
+    # the caller's custom array must come back bit-identical
+    if not np.array_equal(explicit, explicit_snapshot, equal_nan=True):
+        ok = False
+        rec.violation(M_EQ, "C19|custom-array-modified|%s" % preset, "the caller's custom radii array was modified by the analysis", wit)
+    # the vdW numbers of a structure with undefined entries (NaN) as a custom array: SBC must leave the array alone
+    if has_undef and len(atoms) >= 2 and meta["cell_mode"] != "zero_vector_periodic" and rng.random() < 0.5:
+        from ase.data.vdw_alvarez import vdw_radii
+        nan_arr = np.asarray(vdw_radii)[atoms.get_atomic_numbers()].copy()
+        snap = nan_arr.copy()
+        try:
+            matid.SBC().get_clusters(atoms, radii=nan_arr, seed=0)
+        except Exception as e:
+            rec.note("sbc_with_nan_radii_raised:%s" % type(e).__name__)
+        rec.note("sbc_runs_with_nan_custom_array")
+        if not np.array_equal(nan_arr, snap, equal_nan=True):
+            ok = False
+            rec.violation(M_EQ, "C19|custom-array-modified|nan-entries", "a custom radii array with NaN entries was rewritten by SBC.get_clusters", wit)
     rec.judged(M_EQ)
     keys = set()
     if len(atoms) > 1:
